@@ -833,6 +833,10 @@ impl MemBalancerTrigger {
                 s.collection_time,
             ],
         )
+    }
+}
+
+#[cfg(feature = "verif")]
 impl<VM: VMBinding> GCTrigger<VM> {
     /// Verification hook: the value of `request_flag`.
     pub(crate) fn verif_is_requested(&self) -> bool {
